@@ -48,7 +48,7 @@ impl std::error::Error for DecodeErr {}
 #[derive(Debug)]
 enum DecodeState {
     LookingForMessageStart {
-        num_discarded_bytes: u16,
+        num_discarded_bytes: usize,
         num_init_seq_bytes: u8,
     },
     ParsingNormal,
@@ -194,10 +194,10 @@ impl NonOwningDecoder {
                     // a fifth 0x1b still leaves the last four 0x1b matched, and a 0x1b
                     // after `1b1b1b1b 01..` is the first byte of a new attempt.
                     let keep = if *num_init_seq_bytes == 4 { 4 } else { 1 };
-                    *num_discarded_bytes += 1 + u16::from(*num_init_seq_bytes) - keep;
+                    *num_discarded_bytes += 1 + usize::from(*num_init_seq_bytes) - keep;
                     *num_init_seq_bytes = keep as u8;
                 } else {
-                    *num_discarded_bytes += 1 + u16::from(*num_init_seq_bytes);
+                    *num_discarded_bytes += 1 + usize::from(*num_init_seq_bytes);
                     *num_init_seq_bytes = 0;
                 }
                 if *num_init_seq_bytes == 8 {
@@ -208,7 +208,7 @@ impl NonOwningDecoder {
                     self.crc
                         .update(&[0x1b, 0x1b, 0x1b, 0x1b, 0x01, 0x01, 0x01, 0x01]);
                     if num_discarded_bytes > 0 {
-                        return Err(DecodeErr::DiscardedBytes(num_discarded_bytes as usize));
+                        return Err(DecodeErr::DiscardedBytes(num_discarded_bytes));
                     }
                 }
             }
